@@ -102,4 +102,46 @@ def matcherKeyOld (m : Matcher) : Str := m.name ++ m.type.str ++ m.value
 def matcherKey (m : Matcher) : Str :=
   decimal m.name.length ++ cColon :: m.name ++ m.type.str ++ cColon :: m.value
 
+/-! ### LruMatchersCache.GetOrSet: two keys decide whose result a caller gets
+
+  `GetOrSet(m, newItem)` runs `c.sf.Do(sfKey m, f)` where `f` looks `lruKey m` up in the LRU cache and,
+  on a miss, converts `m` and adds the result under `lruKey m`.  singleflight hands the result of
+  the call that is in flight for the same `sfKey` to every caller that arrives meanwhile.  So a
+  caller `m` is answered with the result computed for some caller `l` (the leader of the flight,
+  possibly `m` itself) with `sfKey l = sfKey m`; which one depends on the schedule.  The converted
+  matcher of `m` is represented by `m` itself. -/
+
+/-- the LRU cache: key ↦ converted matcher; evictions remove entries, nothing else does -/
+abbrev MCache := List (Str × Matcher)
+
+/-- what the function passed to singleflight computes for the leader `l`: answer and new cache -/
+def leaderResult (lruKey : Matcher → Str) (cache : MCache) (l : Matcher) : Matcher × MCache :=
+  match cache.lookup (lruKey l) with
+  | some x => (x, cache)
+  | none => (l, (lruKey l, l) :: cache)
+
+/-- one flight: the leader `l` computes, every caller of `followers` (all with the leader's
+    singleflight key) receives the leader's result.  Returns (request, answer) pairs. -/
+def flight (lruKey : Matcher → Str) (cache : MCache) (l : Matcher) (followers : List Matcher) :
+    List (Matcher × Matcher) × MCache :=
+  let r := leaderResult lruKey cache l
+  ((l :: followers).map fun m => (m, r.1), r.2)
+
+/-- a history: flights one after the other (flights for different singleflight keys that overlap
+    in time commute: each only reads and adds its own LRU key), with evictions in between -/
+inductive MEvent where
+  | flight (l : Matcher) (followers : List Matcher)
+  | evict (k : Str)
+
+def runFlights (lruKey : Matcher → Str) : MCache → List MEvent → List (Matcher × Matcher)
+  | _, [] => []
+  | c, .flight l fs :: es => let r := flight lruKey c l fs; r.1 ++ runFlights lruKey r.2 es
+  | c, .evict k :: es => runFlights lruKey (c.filter fun e => e.1 != k) es
+
+/-- the events are possible under `sfKey`: followers share the leader's singleflight key -/
+def FlightsOK (sfKey : Matcher → Str) : List MEvent → Prop
+  | [] => True
+  | .flight l fs :: es => (∀ m ∈ fs, sfKey m = sfKey l) ∧ FlightsOK sfKey es
+  | .evict _ :: es => FlightsOK sfKey es
+
 end Thanos.CacheKeys
